@@ -1,7 +1,7 @@
 #!/venv/bin/python
 """Intake of an independently written seeded regression (from a sub-agent that saw only the property text).
 
-usage: tools/intake_seed.py <ID> <A|B> [--src /tmp/seed/out_<ID>] [--checks ID,ID,...]
+usage: tools/intake_seed.py <ID> <A|B> [--src /tmp/seed/out_<ID>] [--as C] [--checks ID,ID,...]
 
 Confirms, on a scratch worktree of /repo's HEAD (never on /repo itself):
   1. the diff applies cleanly,
@@ -43,6 +43,9 @@ def main():
     extra = []
     if '--src' in args:
         src = args[args.index('--src') + 1]
+    store_as = which
+    if '--as' in args:
+        store_as = args[args.index('--as') + 1]
     if '--checks' in args:
         extra = args[args.index('--checks') + 1].split(',')
     diff = os.path.join(src, which + '.diff')
@@ -59,7 +62,7 @@ def main():
     if r.returncode:
         print(r.stderr)
         return 2
-    meta = {'property': pid, 'variant': which, 'repo_head': sh('git', '-C', REPO, 'rev-parse', '--short', 'HEAD').stdout.strip()}
+    meta = {'property': pid, 'variant': store_as, 'repo_head': sh('git', '-C', REPO, 'rev-parse', '--short', 'HEAD').stdout.strip()}
     ok = True
     try:
         env = dict(os.environ, PYTHONPATH=wt)
@@ -93,7 +96,7 @@ def main():
     if not ok:
         print('REJECT: the change does not satisfy the intake conditions')
         return 1
-    out = os.path.join(ROOT, 'seeded', '%s_%s' % (pid, which))
+    out = os.path.join(ROOT, 'seeded', '%s_%s' % (pid, store_as))
     os.makedirs(out, exist_ok=True)
     shutil.copy(diff, os.path.join(out, 'patch.diff'))
     shutil.copy(demo, os.path.join(out, 'demo.py'))
